@@ -68,11 +68,17 @@ Definition keq : key -> key -> bool := list_eqb Nat.eqb.
    bit 3: a pool-level use blocked at the call of the statement it was handed while another goroutine's
           execution is with the driver, a Close having started (close-queues-use: Close's closer is inside
           Stmt.Close, which waits for that execution; the use queues behind it and then gets the clean
-          error). *)
+          error);
+   bit 4: a pool-level query/row blocked AFTER the driver answered its execution, while another
+          goroutine's execution is with the driver (rows-close-waits-for-execution: the cache closed the
+          statement while it was being executed; database/sql finishes that Close when the last user
+          lets go, here in Rows.Close of the query, and needs the connections the statement was
+          prepared on). *)
 Definition tol_closed (mask : nat) : bool := Nat.odd mask.
 Definition tol_rowpanic (mask : nat) : bool := Nat.odd (Nat.div2 mask).
 Definition tol_commit (mask : nat) : bool := Nat.odd (Nat.div2 (Nat.div2 mask)).
 Definition tol_queue (mask : nat) : bool := Nat.odd (Nat.div2 (Nat.div2 (Nat.div2 mask))).
+Definition tol_rows (mask : nat) : bool := Nat.odd (Nat.div2 (Nat.div2 (Nat.div2 (Nat.div2 mask)))).
 
 
 (* ---- exploration ---------------------------------------------------------------------- *)
@@ -100,9 +106,35 @@ Fixpoint tadd (k : key) (t : trie) : bool * trie :=
 Definition enc_qstate (q : qstate) : list nat :=
   enc_list (fun p => [fst p; snd p]) (q_pend q) ++ enc_state (q_s q).
 
-Definition tau_succs (q : qstate) : list qstate :=
+(* Partial-order reduction of the search (the search only; the theorems quantify over all schedules).
+   Two kinds of closer steps are invisible and commute with every step of every other goroutine:
+   passing `<-s.prepared` once the channel is closed (C0 -> C1; also C1 with no statement -> done), and
+   the closing step of a closer that is inside Stmt.Close with no execution of its statement in flight
+   (while it is pending nobody can start one, so delaying it only delays).  When such a step is
+   enabled the search takes it alone.  The CALL of Stmt.Close (which a concurrent use can overtake) and
+   every step of the program goroutines still branch. *)
+Definition eager_closer (q : qstate) (t : nat) : bool :=
+  match nth_error (s_thr (q_s q)) t with
+  | Some th =>
+    match pend_of q t with
+    | Some st => negb (in_flight (q_s q) st)
+    | None =>
+      match t_pc th with
+      | C0 e => e_done (ent (q_s q) e)
+      | C1 e => match e_stmt (ent (q_s q) e) with None => true | Some _ => false end
+      | _ => false
+      end
+    end
+  | None => false
+  end.
+Definition all_tau_succs (q : qstate) : list qstate :=
   flat_map (fun t => match stepQ q t CNone with Some (q', None) => [q'] | _ => [] end)
            (seq 0 (length (s_thr (q_s q)))).
+Definition tau_succs (q : qstate) : list qstate :=
+  match find (eager_closer q) (seq 0 (length (s_thr (q_s q)))) with
+  | Some t => match stepQ q t CNone with Some (q', None) => [q'] | _ => all_tau_succs q end
+  | None => all_tau_succs q
+  end.
 
 (* accumulator: work list, visited set, visited states *)
 Definition add_new (acc : list qstate * trie * list qstate) (x : qstate) :=
@@ -145,15 +177,19 @@ Definition fire (e : vev) (q : qstate) : list qstate :=
    program goroutine can move on its own, and the blocked ones are exactly those. *)
 Definition quiet_at (qs : list (nat * list nat)) (pos : nat) : option (list nat) :=
   match find (fun p => fst p =? pos) qs with Some p => Some (snd p) | None => None end.
+(* second evaluation of a commit-waits-for-execution / rows-close-waits-for-execution case: the
+   goroutines blocked between two operations (the model has no Commit) resp. after the answer of their
+   execution (the model has no Rows.Close) are not compared *)
+Definition post_exec (p : pc) : bool := match p with X1r _ _ | Ret _ => true | _ => false end.
+Definition excused (mask : nat) (q : qstate) (t : nat) : bool :=
+  (tol_commit mask && is_idle (t_pc (thr (q_s q) t))) || (tol_rows mask && post_exec (t_pc (thr (q_s q) t))).
 Definition at_quiet (mask n : nat) (qs : list (nat * list nat)) (pos : nat) (cl : list qstate) : list qstate :=
   match quiet_at qs pos with
   | Some stuck =>
-    filter (fun q => quiet_on (seq 0 n) q &&
-                     list_eqb Nat.eqb (stuck_on (seq 0 n) q)
-                       (* second evaluation of a commit-waits-for-execution case: the goroutines blocked
-                          between two operations (the model has no Commit) are not compared *)
-                       (if tol_commit mask then filter (fun t => negb (is_idle (t_pc (thr (q_s q) t)))) stuck
-                        else stuck)) cl
+    filter (fun q =>
+              let ex := filter (excused mask q) stuck in
+              quiet_on (filter (fun t => negb (memb t ex)) (seq 0 n)) q &&
+              list_eqb Nat.eqb (stuck_on (seq 0 n) q) (filter (fun t => negb (excused mask q t)) stuck)) cl
   | None => cl
   end.
 
@@ -173,7 +209,7 @@ Fixpoint follow (fuel : nat) (mask n : nat) (qs : list (nat * list nat)) (pos : 
     end
   end.
 
-Definition explore_fuel : nat := 200 * 200.
+Definition explore_fuel : nat := 400 * 200.
 
 (* ---- cases ------------------------------------------------------------------------------ *)
 Record case := mk_case {
@@ -308,16 +344,17 @@ Record qacc := mkQA {
   qa_idx : list nat;            (* operations completed, per goroutine *)
   qa_prep : list (option nat);  (* text of the Prepare call that is with the driver *)
   qa_exec : list bool;          (* an execution is with the driver *)
-  qa_active : list bool         (* inside an operation *)
+  qa_active : list bool;        (* inside an operation *)
+  qa_ans : list bool            (* the driver answered this operation's execution *)
 }.
 Definition qa_step (a : qacc) (e : vev) : qacc :=
   match e with
-  | VStart t => mkQA (qa_idx a) (qa_prep a) (qa_exec a) (upd (qa_active a) t true)
-  | VPrepCall t q _ => mkQA (qa_idx a) (upd (qa_prep a) t (Some q)) (qa_exec a) (qa_active a)
-  | VPrepRet t _ => mkQA (qa_idx a) (upd (qa_prep a) t None) (qa_exec a) (qa_active a)
-  | VExecCall t => mkQA (qa_idx a) (qa_prep a) (upd (qa_exec a) t true) (qa_active a)
-  | VExecRet t _ => mkQA (qa_idx a) (qa_prep a) (upd (qa_exec a) t false) (qa_active a)
-  | VEnd t _ => mkQA (upd (qa_idx a) t (S (nth t (qa_idx a) 0))) (qa_prep a) (qa_exec a) (upd (qa_active a) t false)
+  | VStart t => mkQA (qa_idx a) (qa_prep a) (qa_exec a) (upd (qa_active a) t true) (upd (qa_ans a) t false)
+  | VPrepCall t q _ => mkQA (qa_idx a) (upd (qa_prep a) t (Some q)) (qa_exec a) (qa_active a) (qa_ans a)
+  | VPrepRet t _ => mkQA (qa_idx a) (upd (qa_prep a) t None) (qa_exec a) (qa_active a) (qa_ans a)
+  | VExecCall t => mkQA (qa_idx a) (qa_prep a) (upd (qa_exec a) t true) (qa_active a) (qa_ans a)
+  | VExecRet t _ => mkQA (qa_idx a) (qa_prep a) (upd (qa_exec a) t false) (qa_active a) (upd (qa_ans a) t true)
+  | VEnd t _ => mkQA (upd (qa_idx a) t (S (nth t (qa_idx a) 0))) (qa_prep a) (qa_exec a) (upd (qa_active a) t false) (qa_ans a)
   end.
 Definition qa_op (progs : list (list op)) (a : qacc) (t : nat) : option op :=
   nth_error (nth t progs []) (nth t (qa_idx a) 0).
@@ -329,7 +366,8 @@ Definition stuck_justified (mask : nat) (progs : list (list op)) (a : qacc) (t :
     | Some (OExec q tx _) =>
       existsb (fun u => negb (u =? t) && option_eqb Nat.eqb (nth u (qa_prep a) None) (Some q))
               (seq 0 (length progs))
-      || ((tol_closed mask || tol_queue mask) && negb tx && foreign_exec progs a t)
+      || ((tol_closed mask || tol_queue mask) && negb tx && negb (nth t (qa_ans a) false) && foreign_exec progs a t)
+      || (tol_rows mask && negb tx && nth t (qa_ans a) false && foreign_exec progs a t)
     | _ => false
     end
   else
@@ -353,7 +391,7 @@ Fixpoint quiet_ok (mask : nat) (progs : list (list op)) (qs : list (nat * list n
 Definition no_undue_wait (c : case) : bool :=
   quiet_ok (c_mask c) (c_progs c) (c_quiet c) 0 (c_trace c)
            (mkQA (map (fun _ => 0) (c_progs c)) (map (fun _ => None) (c_progs c)) (map (fun _ => false) (c_progs c))
-                 (map (fun _ => false) (c_progs c))).
+                 (map (fun _ => false) (c_progs c)) (map (fun _ => false) (c_progs c))).
 
 Definition spec_holds (c : case) : bool :=
   let a := spec_fold (c_mask c) (c_progs c) (c_trace c) in
